@@ -30,11 +30,38 @@ Theorem c14_create_covers_requested : forall (f : fs) (root : str) (raws : list 
 Proof. exact create_covers. Qed.
 Print Assumptions c14_create_covers_requested.
 
+(* the auto-checkpoint taken before `write` (resp. `apply_patch`, per header path) is not refused for a
+   request the tool accepts, and covers exactly the file the tool addresses: the recorded name has the
+   real segments of the tool's target below the root *)
+Theorem c14_auto_covers_write : forall (root raw p : str) (cwd : list str),
+  is_absolute root = true -> resolve_tool root raw = Ok p ->
+  exists rel, auto_write_paths raw = Ok raw /\ to_relative root raw = Ok rel
+    /\ real_segs rel = real_segs raw /\ kresolve cwd p = kresolve cwd root ++ real_segs rel.
+Proof. exact auto_write_covers. Qed.
+Print Assumptions c14_auto_covers_write.
+
+Theorem c14_auto_covers_patch_header : forall (root raw p : str) (cwd : list str),
+  is_absolute root = true -> patch_target root raw = Ok p ->
+  exists t rel, parse_rel_path raw = Ok t /\ to_relative root t = Ok rel
+    /\ real_segs rel = real_segs t /\ kresolve cwd p = kresolve cwd root ++ real_segs rel.
+Proof. exact auto_patch_covers. Qed.
+Print Assumptions c14_auto_covers_patch_header.
+
 (* two recorded names for the same file carry the same recorded state (aliases such as d/x and d/./x) *)
 Theorem c14_checkpoint_consistent : forall (f : fs) (root : str) (raws : list str) (ck : list entry),
   create f root raws = Ok ck -> consistent ck.
 Proof. exact create_consistent. Qed.
 Print Assumptions c14_checkpoint_consistent.
+
+(* a rewind that fails — at ANY step, for whatever reason the model's file system can fail: a covered
+   path or one of its ancestors replaced by a directory / a file, a name too long — leaves every file
+   of the workspace, covered or not, with the bytes (or the absence) it had before the rewind
+   (directories created on the way are not removed) *)
+Theorem c14_rewind_failure_restores : forall (f : fs) (root : str) (raws : list str) (ck : list entry) (f2 f3 : fs) (e : N),
+  create f root raws = Ok ck -> sane_b f = true -> sane_b f2 = true -> rewind f2 ck = (f3, Some e) ->
+  forall q, file_at f3 q = file_at f2 q.
+Proof. exact rewind_failure_restores_b. Qed.
+Print Assumptions c14_rewind_failure_restores.
 
 (* a rewind that cannot even snapshot the current state (a covered path is now a directory) changes nothing *)
 Theorem c14_rewind_snapshot_error_changes_nothing : forall (f : fs) (ck : list entry) (e : N),
@@ -56,3 +83,9 @@ Example c14_ex_round_trip :
   create w_ws w_root [w_abs_in; w_dot_b] = Ok w_ck
   /\ sane_b w_later = true /\ rewind w_later w_ck = (w_ws, None).
 Proof. exact ex_round_trip. Qed.
+
+(* ... and a failing rewind: b.txt (absent at create time) is now a directory; a.txt was already
+   restored when the failure hit and is put back *)
+Example c14_ex_failing_rewind :
+  sane_b w_later_dir = true /\ exists e, rewind w_later_dir w_ck = (w_later_dir, Some e).
+Proof. exact ex_failing_rewind. Qed.
